@@ -9,7 +9,7 @@ from util import call, quiet
 
 REQUIRED_THEOREMS = ['Usid.C17.split_join', 'Usid.C17.layout', 'Usid.C17.no_overwrite', 'Usid.C17.oversize_skipped',
                      'Usid.C17.no_temp_left']
-RULE = ('[also: negative and fractional data values, file names with several dots / other extensions, the dataset in the root or three groups deep, float32 datasets around the 15 MiB gate, the tempfile default directory watched] generator datasets of integer-valued real data (int32 / float32 / float64), any dimension counts, sizes and '
+RULE = ('[also: double-precision values that need all 17 significant digits, compared bit for bit after parsing] [also: negative and fractional data values, file names with several dots / other extensions, the dataset in the root or three groups deep, float32 datasets around the 15 MiB gate, the tempfile default directory watched] generator datasets of integer-valued real data (int32 / float32 / float64), any dimension counts, sizes and '
         'storage orders; default and explicit output paths (including one named temp.csv), pre-existing output files, '
         'a user file called temp.csv in the working directory, force in {F,T}, oversized (never written) datasets just above 15 MiB, between 15 and 16 MiB, at 16 MiB '
         'and beyond; the file-system model (written / skipped / refused, files afterwards) compared on every case; '
@@ -41,6 +41,8 @@ def generate(seed, tier):
                                      ['file.h5', 'A/B/C'], ['data.hdf5', 'G']])
         case['shift'] = rng.choice([0, 0, rng.randint(1, 200)])
         case['quarters'] = ds['dtype'] in ('f8', 'f4') and rng.random() < 0.4
+        # values that need all 17 significant digits of a double (compared bit for bit after parsing)
+        case['fullprec'] = ds['dtype'] in ('f8', 'f4') and not case['quarters'] and rng.random() < 0.4
         if case['oversize']:
             case['oversize_dtype'] = rng.choice(['f8', 'f8', 'f4'])
             # float64 elements: 15 MiB = 1966080 of them; just above the limit, between 15 and 16 MiB, at 16 MiB, beyond
@@ -86,6 +88,8 @@ def run_impl(inp, work):
         else:
             n_, m_ = gen.n_points(ds['pos']), gen.n_points(ds['spec'])
             data = (gen.main_array(n_, m_, ds['dtype']).astype(np.float64) - inp.get('shift', 0)) / (4.0 if inp.get('quarters') else 1.0)
+            if inp.get('fullprec'):
+                data = data * 0.1 + 1.0 / 3.0
             gen.write_usid(g, ds, data=data.astype({'f8': np.float64, 'f4': np.float32, 'i4': np.int32}[ds['dtype']]))
     os.chdir(cwd)
     default_out = os.path.join(data_dir, fname[:fname.rfind('.')] + '-' + mpath.replace('/', '-') + '.csv')
@@ -160,6 +164,12 @@ def _expected_table(inp, obs):
     rows.append(list(pos_desc) + ['DASH'] * m)
     for r in range(n):
         k = 1 if inp.get('quarters') else 4           # data cells are compared as quarters
+        if inp.get('fullprec'):
+            def val(c):
+                v = float(r * m + c - inp.get('shift', 0)) * 0.1 + 1.0 / 3.0
+                return float(np.float32(v)).hex() if ds['dtype'] == 'f4' else v.hex()
+            rows.append([str(int(pv[r, p])) for p in range(P)] + [val(c) for c in range(m)])
+            continue
         rows.append([str(int(pv[r, p])) for p in range(P)] + [str((r * m + c - inp.get('shift', 0)) * k) for c in range(m)])
     return rows
 
@@ -176,6 +186,11 @@ def _canon_table(inp, obs):
             elif (i < Q and j >= P) or (i > Q and j < P):
                 try:
                     new.append(str(int(round(float(cell) * 4))))
+                except ValueError:
+                    new.append('?' + cell)
+            elif i > Q and j >= P and inp.get('fullprec'):
+                try:
+                    new.append(float(cell).hex())
                 except ValueError:
                     new.append('?' + cell)
             elif i > Q and j >= P:
